@@ -238,3 +238,18 @@ def canon_text(text, mode="eval"):
     t = ast.parse(text, mode=mode)
     canon_tree(t)
     return ast.unparse(t.body if mode == "eval" else t)
+
+
+def is_guard(st):
+    """an input check: `if <test>: raise ...` with no else and nothing but the raise (and the building of its message) in the body"""
+    return isinstance(st, ast.If) and not st.orelse and bool(st.body) and isinstance(st.body[-1], ast.Raise) \
+        and all(isinstance(b, ast.Raise) or (isinstance(b, ast.Assign) and len(b.targets) == 1 and isinstance(b.targets[0], ast.Name)) for b in st.body)
+
+
+def is_diagnostic(st):
+    """an expression statement that only reports: warnings.warn(...), logging / logger calls, print(...)"""
+    if not (isinstance(st, ast.Expr) and isinstance(st.value, ast.Call)):
+        return False
+    d = dump(st.value.func)
+    return d in ("print", "warnings.warn", "warn") or d.split(".")[0] in ("logging", "logger", "log", "_logger", "LOGGER", "_LOG") \
+        or d.startswith(("self.logger.", "self._logger.", "self.log."))
